@@ -11,6 +11,7 @@ import (
 	"hash/adler32"
 	"hash/crc32"
 	"hash/fnv"
+	"io"
 	"strings"
 	"time"
 
@@ -384,11 +385,14 @@ func c17Check(profile []byte, accept []string, hasDesc bool, via string) (kind, 
 		}
 		return "", "ok"
 	}
-	if via == "reader-reused" || via == "data+eof" || strings.HasPrefix(via, "bufio:") {
+	if via == "reader-reused" || via == "data+eof" || via == "len-reader" || strings.HasPrefix(via, "bufio:") {
 		var p *icc.Profile
 		var err error
 		var pan any
-		if strings.HasPrefix(via, "bufio:") {
+		if via == "len-reader" {
+			// a caller's buffered stream whose Len() reports what it holds right now (at most 1000 bytes)
+			p, err, pan = readProfile(&lenNowReader{data: data})
+		} else if strings.HasPrefix(via, "bufio:") {
 			// a buffered reader whose buffer is smaller than the tag table, than one tag, than the header
 			var n int
 			fmt.Sscanf(via, "bufio:%d", &n)
@@ -539,7 +543,7 @@ func runC17(r *core.Run) {
 		var ring []c17Kept
 		for i := 0; i < n/shards; i++ {
 			p := c17Gen(rg, sh*(n/shards)+i)
-			for _, via := range []string{"direct", "jpeg", "offset", "bufio@4000", "source-reused", "concurrent-description", "after-rejected", "reader-reused", "data+eof", fmt.Sprintf("bufio:%d", []int{16, 64, 100, 300, 1000}[(i/8)%5])} {
+			for _, via := range []string{"direct", "jpeg", "offset", "bufio@4000", "source-reused", "concurrent-description", "after-rejected", "reader-reused", "data+eof", "len-reader", fmt.Sprintf("bufio:%d", []int{16, 64, 100, 300, 1000}[(i/8)%5])} {
 				if via != "direct" && i%8 != 0 {
 					continue
 				}
@@ -701,10 +705,17 @@ func c17Twins(r *core.Run) {
 		b, _ := imggen.ICCSpec{Header: imggen.MinimalHeader(mluc), Tags: []imggen.ICCTag{{Sig: "desc", Data: data}, {Sig: "cprt", Data: []byte{1, 2, 3, 4}}}}.Build()
 		return b, []string{txt}
 	}
-	for _, pr := range pairs {
+	for pi, pr := range pairs {
 		for _, mluc := range []bool{true, false} {
 			pa, aa := build(pr.a, mluc)
 			pb, ab := build(pr.b, mluc)
+			if pi%2 == 0 && len(pa) >= 128 && len(pb) >= 128 {
+				// the same non-zero profile ID (and creation date) in both headers: a description edited
+				// without recomputing the ID, a writer that stamps a constant
+				id := []byte{0xde, 0xad, 0xbe, 0xef, 1, 2, 3, 4, 5, 6, 7, 8, 9, 10, 11, byte(pi)}
+				copy(pa[84:100], id)
+				copy(pb[84:100], id)
+			}
 			for step, x := range []struct {
 				p []byte
 				a []string
@@ -734,6 +745,45 @@ func c17Twins(r *core.Run) {
 			}
 		}
 	}
+}
+
+// lenNowReader: Read / ReadByte deliver the data through a window of at most 1000 bytes that is
+// refilled when empty; Len() is the number of bytes in the window at this moment.
+type lenNowReader struct {
+	data []byte
+	pos  int
+	win  int
+}
+
+func (l *lenNowReader) fill() {
+	if l.win == 0 {
+		l.win = len(l.data) - l.pos
+		if l.win > 1000 {
+			l.win = 1000
+		}
+	}
+}
+func (l *lenNowReader) Len() int { return l.win }
+func (l *lenNowReader) Read(p []byte) (int, error) {
+	if l.pos >= len(l.data) {
+		return 0, io.EOF
+	}
+	l.fill()
+	n := len(p)
+	if n > l.win {
+		n = l.win
+	}
+	copy(p, l.data[l.pos:l.pos+n])
+	l.pos += n
+	l.win -= n
+	return n, nil
+}
+func (l *lenNowReader) ReadByte() (byte, error) {
+	var b [1]byte
+	if n, err := l.Read(b[:]); n == 0 {
+		return 0, err
+	}
+	return b[0], nil
 }
 
 func replayC17(stage string, raw json.RawMessage) (bool, string, error) {
